@@ -52,6 +52,8 @@ class MultiVector:
             values = list(values)
 
         # Sanitize input
+        if keys is not None:
+            keys = tuple(keys)  # Operators look multivectors up by their keys: a list is not hashable.
         if keys is not None and not all(isinstance(k, int) for k in keys):
             keys = tuple(k if k in algebra.bin2canon else algebra.canon2bin[k] for k in keys)
         if grades is None and name and keys is not None:
@@ -102,6 +104,8 @@ class MultiVector:
 
         if not set(keys) <= set(algebra.indices_for_grades[grades]):
             raise ValueError(f"All keys should be of grades {grades}.")
+        if len(set(keys)) != len(keys):
+            raise ValueError("A basis blade is given more than once.")
 
         return cls.fromkeysvalues(algebra, keys, values)
 
